@@ -201,3 +201,81 @@ def pref_hooks(prog: Program) -> Dict[str, object]:
     for slot in slots:
         hooks[f'classattr:PreferredUnits.{slot}'] = classattr
     return hooks
+
+
+# --------------------------------------------------------------------------------------
+# attribute store inventory
+# --------------------------------------------------------------------------------------
+
+class Store:
+    __slots__ = ('module', 'func', 'node', 'base', 'attr', 'form')
+
+    def __init__(self, module, func, node, base, attr, form):
+        self.module, self.func, self.node, self.base, self.attr, self.form = module, func, node, base, attr, form
+
+    @property
+    def base_text(self) -> str:
+        return norm(self.base) if self.base is not None else '?'
+
+    def __repr__(self):
+        return f'<store {self.base_text}.{self.attr} [{self.form}] at {self.module.path}:{self.node.lineno}>'
+
+
+def iter_attr_stores(prog: Program):
+    """Every syntactic way the package writes an attribute: assignment / augmented / annotated /
+    for-target / with-target / del, setattr(), object.__setattr__(), ``__dict__`` item stores and
+    ``__dict__.update``.  ``attr`` is None when the name is not a literal."""
+    from ..loader import find_func_for_node
+    for mod in prog.modules.values():
+        for node in ast.walk(mod.tree):
+            if isinstance(node, ast.Attribute) and isinstance(node.ctx, (ast.Store, ast.Del)):
+                yield Store(mod, find_func_for_node(prog, mod, node), node, node.value, node.attr,
+                            'del' if isinstance(node.ctx, ast.Del) else 'assign')
+            elif isinstance(node, ast.Call):
+                name = dotted(node.func) or ''
+                if name in ('setattr', 'object.__setattr__', 'delattr', 'object.__delattr__') and len(node.args) >= 2:
+                    a = node.args[1]
+                    attr = a.value if isinstance(a, ast.Constant) and isinstance(a.value, str) else None
+                    yield Store(mod, find_func_for_node(prog, mod, node), node, node.args[0], attr, name)
+                elif name.endswith('.__setattr__') and len(node.args) >= 2:
+                    a = node.args[-2]
+                    attr = a.value if isinstance(a, ast.Constant) and isinstance(a.value, str) else None
+                    yield Store(mod, find_func_for_node(prog, mod, node), node, node.args[0], attr, name)
+                elif isinstance(node.func, ast.Attribute) and node.func.attr in ('update', 'setdefault', '__setitem__') \
+                        and isinstance(node.func.value, ast.Attribute) and node.func.value.attr == '__dict__':
+                    yield Store(mod, find_func_for_node(prog, mod, node), node, node.func.value.value, None,
+                                '__dict__.' + node.func.attr)
+                elif isinstance(node.func, ast.Attribute) and node.func.attr in ('update', 'setdefault') \
+                        and isinstance(node.func.value, ast.Call) and (dotted(node.func.value.func) or '') == 'vars':
+                    yield Store(mod, find_func_for_node(prog, mod, node), node,
+                                node.func.value.args[0] if node.func.value.args else None, None, 'vars().update')
+            elif isinstance(node, ast.Subscript) and isinstance(node.ctx, (ast.Store, ast.Del)):
+                v = node.value
+                if isinstance(v, ast.Attribute) and v.attr == '__dict__':
+                    s = node.slice
+                    attr = s.value if isinstance(s, ast.Constant) and isinstance(s.value, str) else None
+                    yield Store(mod, find_func_for_node(prog, mod, node), node, v.value, attr, '__dict__[]')
+                elif isinstance(v, ast.Call) and (dotted(v.func) or '') == 'vars':
+                    s = node.slice
+                    attr = s.value if isinstance(s, ast.Constant) and isinstance(s.value, str) else None
+                    yield Store(mod, find_func_for_node(prog, mod, node), node, v.args[0] if v.args else None, attr,
+                                'vars()[]')
+
+
+def fresh_object_locals(func_node: ast.AST, prog: Program, module: Module) -> Dict[str, str]:
+    """local name -> class name, for locals bound exactly once in the function to
+    ``object.__new__(<Class>)`` (the fast-constructor idiom)."""
+    out: Dict[str, str] = {}
+    counts: Dict[str, int] = {}
+    for n in ast.walk(func_node):
+        if isinstance(n, ast.Name) and isinstance(n.ctx, ast.Store):
+            counts[n.id] = counts.get(n.id, 0) + 1
+    for n in ast.walk(func_node):
+        if isinstance(n, ast.Assign) and len(n.targets) == 1 and isinstance(n.targets[0], ast.Name) \
+                and isinstance(n.value, ast.Call) and (dotted(n.value.func) or '') == 'object.__new__' \
+                and len(n.value.args) == 1 and isinstance(n.value.args[0], ast.Name):
+            name = n.targets[0].id
+            ci = prog.resolve_class(module, n.value.args[0].id)
+            if ci is not None and counts.get(name) == 1:
+                out[name] = ci.name
+    return out
